@@ -43,6 +43,11 @@ def record_ctor_bodies(ctx):
 
 
 def run(ctx):
+    _wiring(ctx)
+    import metriclib
+    ctx.rule('R01.6', 'the histories whose last entries are echoed keep the newest entries (push_back / pop_front)')
+    ctx.floor('R01.6', metriclib.rule_histories(ctx, 'R01.6'), 19)
+    shared_counter(ctx, 'R01.3')
     r1(ctx)
     r2(ctx)
     r3(ctx)
@@ -421,3 +426,57 @@ def record_source(ctx, R, lb, eb, tname, fr):
     ctx.check(ok, R, lb, tname + ':record-read-back-under-chosen-id', detail[:200],
               'the record is not read back from the store under the id chosen for this detection (new id or '
               'merge destination): %r' % a.strip(), froms[0].ln)
+
+
+def _wiring(ctx):
+    """name-agreement wiring of the configuration values this property depends on (rules/wiring.py)"""
+    import wiring
+    ctx.rule('R01.5', 'configuration plumbing: same-named fields / parameters / setters / call arguments are not crossed')
+    ctx.floor('R01.5', wiring.run(ctx, 'R01.5', {'custom_object_id', 'scene_id', 'epoch'}), 30)
+
+
+def shared_counter(ctx, R):
+    """batch trackers: all voting threads share ONE id counter (created outside the per-thread closure)"""
+    F = ctx.F
+    from lib import upvar_expr
+    for tname, t in T.TRACKERS.items():
+        if not t['batch']:
+            continue
+        nb = ctx.anchor(R, t['ty'] + '::new')
+        if nb is None:
+            continue
+        found = False
+        for cb in all_closures(F, nb):
+            for c in cb.find_calls(t['loop']):
+                vt = F.one(t['loop'])
+                idx = [i for i in range(1, vt.nargs + 1) if 'RwLock<u64>' in vt.locals[i]] if vt else []
+                if not idx:
+                    continue
+                e = ExprBuilder(cb).arg(c, idx[0] - 1).strip()
+                hops = 0
+                cur_b, cur = cb, e
+                # follow captures up to (not including) the constructor body
+                while cur.kind == 'place' and cur.root[0] == 'upvar' and cur_b.kind == 'Closure' and hops < 4:
+                    pb, pe = upvar_expr(F, cur_b, cur.root[1])
+                    if pe is None:
+                        break
+                    cur_b, cur = pb, pe
+                    if cur.kind == 'call' and cur.name.endswith('clone') and cur.args:
+                        inner = cur.args[0].strip()
+                        if inner.kind == 'place':
+                            cur = inner
+                    else:
+                        cur = cur.strip()
+                    hops += 1
+                found = True
+                created_in_ctor = cur_b is nb or (cur.kind == 'place' and cur.root[0] in ('upvar',) and False)
+                if cur_b is not nb and cur.kind == 'place' and cur.root[0] == 'upvar':
+                    created_in_ctor = True
+                fresh_per_thread = any(y.kind == 'call' and y.name.rsplit('::', 1)[-1] == 'new' for y in cur.walk()) and \
+                    cur_b is not nb
+                ctx.check(created_in_ctor and not fresh_per_thread, R, nb, tname + ':one-shared-id-counter',
+                          'counter handed to the voting threads: %r (defined in %s)' % (cur, cur_b.npath.rsplit('::', 1)[-1]),
+                          'every voting thread receives its own id counter (%r created inside the per-thread closure '
+                          '%s): ids repeat across threads' % (cur, cur_b.npath.rsplit('::', 1)[-1]), c.ln)
+        if not found:
+            ctx.fail(R, nb, tname + ':one-shared-id-counter', 'ANCHOR-MISSING: the constructor does not start the voting threads')
